@@ -5,6 +5,11 @@ import Ptn.C05.Heff
 import Ptn.C05.Value
 import Ptn.C05.Projected
 import Ptn.C05.ProjectedTree
+import Ptn.C05.HeffBuilt
+import Ptn.C05.HeffLoopValue
+import Ptn.C05.ProjectedLinkTwo
+import Ptn.C05.Ctx
+import Ptn.C05.ProjectedTreeAll
 /-! Property theorems for C05.  `Core.lean`: duration totals of the three schedules for arbitrary
 segment lists (per segment edge, under the hypotheses `Nodup` / last-two-adjacent).  `Tree.lean`:
 the same totals for every well-formed tree with the segments computed from the C17 model of the
@@ -16,6 +21,12 @@ rebuild ever reads a stale environment block (`reads_fresh_*`, `discipline_invar
 the VALUE of those leg graphs over every commutative semiring (`site_heff_value`, `link_heff_value`,
 `two_site_heff_value` and their `_blocks` forms; `site_heff_is_projected_hamiltonian`: `H_eff = E† H E` at the
 record level; `site_heff_projected_tree_root_partial`: the same on a whole tree for the root site).
+`HeffBuilt.lean`, `HeffLoopValue.lean`: provenance (`site_heff_built`, `link_heff_built`, `two_site_heff_built`) and the
+unconditional `site_heff_loop_value`, `link_heff_loop_value`, `two_site_heff_loop_value` (the model's own call sequence
+has the proved value).  `ProjectedLinkTwo.lean`: `link_heff_is_projected_hamiltonian`,
+`two_site_heff_is_projected_hamiltonian`.  `Ctx.lean`, `ProjectedTreeAll.lean`: the parent-direction block
+(`Ctx.ctx_block_is_model`, `Ctx.block_record_is_component_sandwich`), `Ctx.exists_ctx` (every site of every tree is
+the hole of a context) and `site_heff_projected_tree` (`H_eff = E† H E` for EVERY site of every tree).
 
 Below: non-vacuity examples for the value-level theorems (concrete programs that satisfy every hypothesis). -/
 namespace Ptn.C05.Heff
@@ -198,5 +209,189 @@ example : Expr.LabelsDisjoint (demoW0 :: [2, 1].map demoBlk) ∧ (∀ n ∈ [2, 
     simp only [demoHeff, demoBlk, demoW0, demoKet, demoOp, demoBra, demoLeaf, Expr.leafProd, Expr.leafProdL,
       Expr.leaves, prodL, List.map_cons, List.map_nil, List.cons_append, List.nil_append, mul_one]
     ring
+
+/-! ### provenance: `site_heff_built`, `link_heff_built`, `two_site_heff_built` and the `…_loop_value` theorems -/
+
+def demoSiteMat : Mat := ⟨[.gBra 5 9, .gBra 1 9, .gOpOut 9], [.gKet 5 9, .gKet 1 9, .gOpIn 9],
+  [(.gOp 9 5, .gOp 5 9), (.gOp 9 1, .gOp 1 9)]⟩
+
+/-- the hypotheses of `site_heff_built` on the demo node: the call succeeds, the operator tensor and both blocks
+are fresh tensors with arbitrary integer values -/
+example : ∃ m, m = demoSiteMat ∧ getEffectiveSingleSiteHamiltonianNodes demoHam demoHam (gOpT 9 demoHam)
+      (fun n => some (gBlock n 9 [])) = some m ∧
+    BuiltL (R := Int) (gOpT 9 demoHam) [((gOpT 9 demoHam).legs, demoT (gOpT 9 demoHam).legs)] ∧
+    (∀ n ∈ demoHam.nbrs, ∀ blk, (fun n => some (gBlock n 9 [])) n = some blk →
+      BuiltL (R := Int) blk ((fun n => [(blockLegs n 9, demoT (blockLegs n 9))]) n)) ∧
+    BuiltL (R := Int) m.toT ([((gOpT 9 demoHam).legs, demoT (gOpT 9 demoHam).legs)] ++
+      demoHam.nbrs.flatMap fun n => [(blockLegs n 9, demoT (blockLegs n 9))]) := by
+  have hc : ∀ n ∈ demoHam.nbrs, ∀ blk, (fun n => some (gBlock n 9 [])) n = some blk →
+      BuiltL (R := Int) blk ((fun n => [(blockLegs n 9, demoT (blockLegs n 9))]) n) := by
+    intro n _ blk h
+    simp only [Option.some.injEq] at h
+    subst h
+    exact BuiltL.fresh _ _
+  have hm : getEffectiveSingleSiteHamiltonianNodes demoHam demoHam (gOpT 9 demoHam)
+      (fun n => some (gBlock n 9 [])) = some demoSiteMat := by decide
+  exact ⟨demoSiteMat, rfl, hm, BuiltL.fresh _ _, hc,
+    site_heff_built (lv := fun n => [(blockLegs n 9, demoT (blockLegs n 9))]) hm (BuiltL.fresh _ _) hc⟩
+
+/-- every hypothesis of `site_heff_loop_value` (node 9, parent 5, child 1) -/
+example : demoHam.nbrs.Nodup ∧ demoHam.nbrs.Perm demoHam.nbrs ∧ 9 ∉ demoHam.nbrs ∧
+    (∀ n ∈ demoHam.nbrs, (fun n => some (gBlock n 9 [])) n = some (gBlock n 9 [])) ∧
+    DependsOn (· ∈ (gOpT 9 demoHam).legs) (demoT (gOpT 9 demoHam).legs) ∧
+    (∀ n ∈ demoHam.nbrs, DependsOn (· ∈ blockLegs n 9) (demoT (blockLegs n 9))) :=
+  ⟨by decide, List.Perm.refl _, by decide, fun _ _ => rfl, demoT_local _, fun _ _ => demoT_local _⟩
+
+/-- every hypothesis of `link_heff_built` / `link_heff_loop_value` (link between parent 7 and child 4) -/
+example : (7 : Nat) ≠ 4 ∧
+    (fun k => if k = (4, 7) then some (gBlock 4 7 []) else if k = (7, 4) then some (gBlock 7 4 []) else none :
+      Dict) (7, 4) = some (gBlock 7 4 []) ∧
+    (fun k => if k = (4, 7) then some (gBlock 4 7 []) else if k = (7, 4) then some (gBlock 7 4 []) else none :
+      Dict) (4, 7) = some (gBlock 4 7 []) ∧
+    DependsOn (· ∈ blockLegs 7 4) (demoT (blockLegs 7 4)) ∧ DependsOn (· ∈ blockLegs 4 7) (demoT (blockLegs 4 7)) :=
+  ⟨by decide, by decide, by decide, demoT_local _, demoT_local _⟩
+
+/-- the hypotheses of `two_site_heff_built` / `two_site_heff_loop_value` beyond those of `two_site_heff_value`
+(shown above): the tensors read only their own legs -/
+example : DependsOn (· ∈ (gOpT 1 demoHamT).legs) (demoT (gOpT 1 demoHamT).legs) ∧
+    DependsOn (· ∈ (gOpT 2 demoHamX).legs) (demoT (gOpT 2 demoHamX).legs) ∧
+    (∀ n ∈ demoHamT.nbrs.filter (· ≠ 2), DependsOn (· ∈ blockLegs n 1) (demoT (blockLegs n 1))) ∧
+    (∀ n ∈ demoHamX.nbrs.filter (· ≠ 1), DependsOn (· ∈ blockLegs n 2) (demoT (blockLegs n 2))) :=
+  ⟨demoT_local _, demoT_local _, fun _ _ => demoT_local _, fun _ _ => demoT_local _⟩
+
+/-! ### the chain 0 — 1 — 2 (root 0): `link_heff_is_projected_hamiltonian` on the bond 0 — 1 of the two-node chain,
+`Ctx.ctx_block_is_model`, `Ctx.block_record_is_component_sandwich` and `site_heff_projected_tree` for the site 2
+(a leaf at depth 2: its parent block contains the block from the grandparent) -/
+
+def chKet (i : Nat) (nd : Node) : Expr Leg Int := demoLeaf (gKetT i nd).legs
+def chOp (i : Nat) (nd : Node) : Expr Leg Int := demoLeaf (gOpT i nd).legs
+def chBra (i : Nat) (nd : Node) : Expr Leg Int := demoLeaf (gBraT i nd).legs
+
+/-- the two-node chain 0 — 1: blocks of the one-node components, link on the bond -/
+def lkBlk0 : Expr Leg Int :=
+  Expr.dot (Expr.dot (chKet 0 ⟨none, [1]⟩) (chOp 0 ⟨none, [1]⟩) [physIn 0]) (chBra 0 ⟨none, [1]⟩) [physOut 0]
+def lkBlk1 : Expr Leg Int :=
+  Expr.dot (Expr.dot (chKet 1 ⟨some 0, []⟩) (chOp 1 ⟨some 0, []⟩) [physIn 1]) (chBra 1 ⟨some 0, []⟩) [physOut 1]
+def lkHeff : Expr Leg Int := Expr.dot lkBlk0 lkBlk1 [(Leg.gOp 0 1, Leg.gOp 1 0)]
+def lkE : Expr Leg Int := Expr.dot (chKet 0 ⟨none, [1]⟩) (chKet 1 ⟨some 0, []⟩) []
+def lkH : Expr Leg Int := Expr.dot (chOp 0 ⟨none, [1]⟩) (chOp 1 ⟨some 0, []⟩) [(Leg.gOp 0 1, Leg.gOp 1 0)]
+def lkB : Expr Leg Int := Expr.dot (chBra 0 ⟨none, [1]⟩) (chBra 1 ⟨some 0, []⟩) []
+
+theorem lkBlk0_swf : lkBlk0.SWF := by
+  refine ⟨⟨demoLeaf_swf _ ?_, demoLeaf_swf _ ?_, ?_, ?_, ?_, ?_⟩, demoLeaf_swf _ ?_, ?_, ?_, ?_, ?_⟩ <;> decide
+theorem lkBlk1_swf : lkBlk1.SWF := by
+  refine ⟨⟨demoLeaf_swf _ ?_, demoLeaf_swf _ ?_, ?_, ?_, ?_, ?_⟩, demoLeaf_swf _ ?_, ?_, ?_, ?_, ?_⟩ <;> decide
+
+/-- every hypothesis of `link_heff_is_projected_hamiltonian` (`p = 0`, `c = 1`; components = single nodes; the
+blocks carry the records the model produces: `[physIn 0, physOut 0]` from `contract_any(0, 1)`, `[physOut 1, physIn 1]`
+from `contract_leaf`), all dimensions 2 -/
+example : (0 : Nat) ≠ 1 ∧
+    (unordL [physIn 0, physOut 0]).Perm (unordL (compRecord (fun n => [physOut n]) (fun n => [physIn n])
+      (fun _ => []) (fun _ => []) (fun _ => []) 0)) ∧
+    (unordL [physOut 1, physIn 1]).Perm (unordL (compRecord (fun n => [physOut n]) (fun n => [physIn n])
+      (fun _ => []) (fun _ => []) (fun _ => []) 1)) ∧
+    lkHeff.SWF ∧ lkE.WF ∧ lkH.WF ∧ lkB.WF ∧
+    (∀ l ∈ lkE.labels, l ∉ lkH.labels) ∧ (∀ l ∈ lkE.labels, l ∉ lkB.labels) ∧ (∀ l ∈ lkH.labels, l ∉ lkB.labels) ∧
+    lkHeff.binds.Perm ([physIn 0, physOut 0] ++ [physOut 1, physIn 1] ++ [(Leg.gOp 0 1, Leg.gOp 1 0)]) ∧
+    (unordL lkE.binds).Perm (unordL ([] ++ [])) ∧
+    (unordL lkH.binds).Perm (unordL ([(Leg.gOp 0 1, Leg.gOp 1 0)] ++ ([] ++ []))) ∧
+    (unordL lkB.binds).Perm (unordL ([] ++ [])) ∧
+    (∀ q ∈ [physIn 0] ++ [physIn 1], q.1 ∈ lkE.free ∧ q.2 ∈ lkH.free) ∧
+    (∀ q ∈ [physOut 0] ++ [physOut 1],
+      (q.1 ∈ lkH.free ∧ q.1 ∉ ([physIn 0] ++ [physIn 1]).map Prod.snd) ∧ q.2 ∈ lkB.free) ∧
+    (∀ σ, lkHeff.leafProd σ = lkE.leafProd σ * lkH.leafProd σ * lkB.leafProd σ) := by
+  have hE : lkE.SWF := ⟨demoLeaf_swf _ (by decide), demoLeaf_swf _ (by decide), by decide, by decide, by decide,
+    by decide⟩
+  have hH : lkH.SWF := ⟨demoLeaf_swf _ (by decide), demoLeaf_swf _ (by decide), by decide, by decide, by decide,
+    by decide⟩
+  have hB : lkB.SWF := ⟨demoLeaf_swf _ (by decide), demoLeaf_swf _ (by decide), by decide, by decide, by decide,
+    by decide⟩
+  have he : lkHeff.SWF := ⟨lkBlk0_swf, lkBlk1_swf, by decide, by decide, by decide, by decide⟩
+  refine ⟨by decide, by decide, by decide, he, hE.wf, hH.wf, hB.wf, by decide, by decide, by decide, by decide,
+    by decide, by decide, by decide, by decide, by decide, ?_⟩
+  intro σ
+  simp only [lkHeff, lkBlk0, lkBlk1, lkE, lkH, lkB, chKet, chOp, chBra, demoLeaf, Expr.leafProd, Expr.leaves, prodL,
+    List.map_cons, List.map_nil, List.cons_append, List.nil_append, mul_one]
+  ring
+
+/-- the context of the site 2 in the chain 0 — 1 — 2 -/
+def chCtx : Ctx := .frame 1 [] [] (.frame 0 [] [] .root)
+
+example : chCtx.plug (Tree.node 2 []) = Tree.node 0 [Tree.node 1 [Tree.node 2 []]] := rfl
+
+/-- `Ctx.ctx_block_is_model` on the chain: `contract_any(0, 1)` with an empty cache, then `contract_any(1, 2)` with
+the block just built, return the blocks with the records `blockBinds`; hypotheses by `decide` -/
+example : opContractAnyNodeEnvironmentButOne 1 ⟨none, [1]⟩ (gKetT 0 ⟨none, [1]⟩) ⟨none, [1]⟩ (gOpT 0 ⟨none, [1]⟩)
+      (fun _ => none) ⟨none, [1]⟩ (gBraT 0 ⟨none, [1]⟩) id id =
+      some (gBlock 0 1 (Ctx.frame 0 [] [] .root).blockBinds) ∧
+    opContractAnyNodeEnvironmentButOne 2 ⟨some 0, [2]⟩ (gKetT 1 ⟨some 0, [2]⟩) ⟨some 0, [2]⟩ (gOpT 1 ⟨some 0, [2]⟩)
+      (fun n => if n = 0 then some (gBlock 0 1 (Ctx.frame 0 [] [] .root).blockBinds) else none) ⟨some 0, [2]⟩
+      (gBraT 1 ⟨some 0, [2]⟩) id id = some (gBlock 1 2 chCtx.blockBinds) ∧
+    chCtx.ids.Nodup ∧
+    chCtx.blockBinds = [physIn 0, physOut 0, (.gKet 1 0, .gKet 0 1), (.gOp 0 1, .gOp 1 0), physIn 1,
+      (.gBra 0 1, .gBra 1 0), physOut 1] := by
+  refine ⟨?_, ?_, by decide, by decide⟩
+  · exact Ctx.ctx_block_is_model 0 1 [] [] .root [1] _ (by decide) (by decide) (by simp [Ctx.parent])
+      (by simp)
+  · exact Ctx.ctx_block_is_model 1 2 [] [] (.frame 0 [] [] .root) [2] _ (by decide) (by decide)
+      (by intro q hq; simp only [Ctx.parent, Option.some.injEq] at hq; subst hq; rfl) (by simp)
+
+def chBlk0 : Expr Leg Int := lkBlk0
+/-- the program of `contract_any(1, 2)`: ket tensor with the block of 0, then the operator, then the bra -/
+def chBlk1 : Expr Leg Int :=
+  Expr.dot
+    (Expr.dot (Expr.dot (chKet 1 ⟨some 0, [2]⟩) chBlk0 [(Leg.gKet 1 0, Leg.gKet 0 1)]) (chOp 1 ⟨some 0, [2]⟩)
+      [(Leg.gOp 0 1, Leg.gOp 1 0), physIn 1])
+    (chBra 1 ⟨some 0, [2]⟩) [(Leg.gBra 0 1, Leg.gBra 1 0), physOut 1]
+def chW2 : Expr Leg Int := chOp 2 ⟨some 1, []⟩
+/-- the program of `contract_all_except_node` for the leaf 2 -/
+def chHeff : Expr Leg Int := Expr.dot chW2 chBlk1 [(Leg.gOp 2 1, Leg.gOp 1 2)]
+def chE : Expr Leg Int := Expr.dot (chKet 0 ⟨none, [1]⟩) (chKet 1 ⟨some 0, [2]⟩) [(Leg.gKet 0 1, Leg.gKet 1 0)]
+def chH : Expr Leg Int :=
+  Expr.dot (Expr.dot (chOp 0 ⟨none, [1]⟩) (chOp 1 ⟨some 0, [2]⟩) [(Leg.gOp 0 1, Leg.gOp 1 0)]) chW2
+    [(Leg.gOp 1 2, Leg.gOp 2 1)]
+def chB : Expr Leg Int := Expr.dot (chBra 0 ⟨none, [1]⟩) (chBra 1 ⟨some 0, [2]⟩) [(Leg.gBra 0 1, Leg.gBra 1 0)]
+
+theorem chBlk1_swf : chBlk1.SWF := by
+  refine ⟨⟨⟨demoLeaf_swf _ ?_, lkBlk0_swf, ?_, ?_, ?_, ?_⟩, demoLeaf_swf _ ?_, ?_, ?_, ?_, ?_⟩, demoLeaf_swf _ ?_,
+    ?_, ?_, ?_, ?_⟩ <;> decide
+
+/-- the model's answer for the leaf 2 of the chain: the parent block carries `chCtx.blockBinds` -/
+example : getEffectiveSingleSiteHamiltonianNodes ⟨chCtx.parent, []⟩ ⟨chCtx.parent, []⟩ (gOpT 2 ⟨chCtx.parent, []⟩)
+    (siteCache chCtx [] 2) =
+    some ⟨[.gBra 1 2, .gOpOut 2], [.gKet 1 2, .gOpIn 2], chCtx.blockBinds ++ [(.gOp 2 1, .gOp 1 2)]⟩ := by decide
+
+/-- every hypothesis of `site_heff_projected_tree` for the site 2 of the chain 0 — 1 — 2 (depth 2), all
+dimensions 2 -/
+example : (chCtx.plug (Tree.node 2 [])).ids.Nodup ∧ ([] : List Nat).Perm (([] : List Tree).map Tree.id) ∧
+    chHeff.SWF ∧ chE.WF ∧ chH.WF ∧ chB.WF ∧
+    (∀ l ∈ chE.labels, l ∉ chH.labels) ∧ (∀ l ∈ chE.labels, l ∉ chB.labels) ∧ (∀ l ∈ chH.labels, l ∉ chB.labels) ∧
+    chHeff.binds.Perm (chCtx.blockBinds ++ [(.gOp 2 1, .gOp 1 2)]) ∧
+    (unordL chE.binds).Perm
+      (unordL ((chCtx.compEdges ++ ([] : List Tree).flatMap Tree.edges).map fun e => ketEdge e.1 e.2)) ∧
+    (unordL chH.binds).Perm (unordL ((chCtx.plug (Tree.node 2 [])).edges.map fun e => opEdge e.1 e.2)) ∧
+    (unordL chB.binds).Perm
+      (unordL ((chCtx.compEdges ++ ([] : List Tree).flatMap Tree.edges).map fun e => braEdge e.1 e.2)) ∧
+    (∀ n ∈ chCtx.ids ++ Tree.idsL [], Leg.gKetPhys n ∈ chE.free ∧ Leg.gOpIn n ∈ chH.free ∧
+      Leg.gOpOut n ∈ chH.free ∧ Leg.gBraPhys n ∈ chB.free) ∧
+    (∀ σ, chHeff.leafProd σ = chE.leafProd σ * chH.leafProd σ * chB.leafProd σ) := by
+  have hW : chW2.SWF := demoLeaf_swf _ (by decide)
+  have hE : chE.SWF := ⟨demoLeaf_swf _ (by decide), demoLeaf_swf _ (by decide), by decide, by decide, by decide,
+    by decide⟩
+  have hB : chB.SWF := ⟨demoLeaf_swf _ (by decide), demoLeaf_swf _ (by decide), by decide, by decide, by decide,
+    by decide⟩
+  have hH : chH.SWF := ⟨⟨demoLeaf_swf _ (by decide), demoLeaf_swf _ (by decide), by decide, by decide, by decide,
+    by decide⟩, hW, by decide, by decide, by decide, by decide⟩
+  have he : chHeff.SWF := ⟨hW, chBlk1_swf, by decide, by decide, by decide, by decide⟩
+  refine ⟨by decide, by decide, he, hE.wf, hH.wf, hB.wf, by decide, by decide, by decide, by decide, by decide,
+    by decide, by decide, by decide, ?_⟩
+  intro σ
+  simp only [chHeff, chBlk1, chBlk0, lkBlk0, chW2, chE, chH, chB, chKet, chOp, chBra, demoLeaf, Expr.leafProd,
+    Expr.leaves, prodL, List.map_cons, List.map_nil, List.cons_append, List.nil_append, mul_one]
+  ring
+
+/-- `Ctx.exists_ctx`: the site 2 of the chain is a hole -/
+example : ∃ (c : Ctx) (ks : List Tree), Tree.node 0 [Tree.node 1 [Tree.node 2 []]] = c.plug (Tree.node 2 ks) :=
+  Ctx.exists_ctx _ 2 (by decide)
 
 end Ptn.C05.Heff
